@@ -395,7 +395,11 @@ def selftest_cases(n):
     for i in range(n):
         rnd = random.Random(60_000 + i)
         t = rnd.choice(list(TABLES))
-        out.append({"seed": 60_000 + i, "table": t, "ops": gen_history(rnd, t)})
+        if i % 3 == 2:
+            pre, burst = gen_burst(rnd, t)
+            out.append({"kind": "burst", "seed": 60_000 + i, "table": t, "pre": pre, "burst": burst, "manager": rnd.choice(["slow", "digest"])})
+        else:
+            out.append({"seed": 60_000 + i, "table": t, "ops": gen_history(rnd, t), "manager": rnd.choice(MANAGERS)})
     return out
 
 
